@@ -214,6 +214,15 @@ impl<'a, W: 'static, R: 'static, T: 'static> RuntimeScope<'a, W, R, T> {
             scope_parent,
             template: template.clone(),
         };
+        #[cfg(feature = "verif")]
+        if stack_parent.is_some() {
+            crate::verif::frame(
+                ret.height.0,
+                !rt.limits
+                    .depth_limit
+                    .map_or(false, |limit| ret.height.0 >= limit),
+            );
+        }
         if rt
             .limits
             .depth_limit
@@ -414,6 +423,8 @@ impl<'a, W: 'static, R: 'static, T: 'static> RuntimeScope<'a, W, R, T> {
                 self.eval_func_with_expressions(func, &args, rt, tail_available)
             }
             XFunction::UserFunction { template, output } => {
+                #[cfg(feature = "verif")]
+                crate::verif::ud_call();
                 {
                     rt.increment_call_limit()?;
                     rt.check_timeout()?;
@@ -427,6 +438,8 @@ impl<'a, W: 'static, R: 'static, T: 'static> RuntimeScope<'a, W, R, T> {
                     match v? {
                         TailedEvalResult::TailCall(new_args) => {
                             recursion_depth += 1;
+                            #[cfg(feature = "verif")]
+                            crate::verif::tail_iter(recursion_depth as u64);
                             if let Some(recursion_limit) = rt.limits.recursion_limit {
                                 if recursion_depth > recursion_limit {
                                     return Err(RuntimeViolation::MaximumRecursion);
